@@ -943,6 +943,10 @@ class Evaluator:
                 f = f.get("e") or f.get("a")
             if f.get("k") == "Path" and f.get("res") == "local":
                 callee = "local:" + f["name"]
+                # a call through a local that holds a function item (a function passed as an argument of an expanded helper) is a call of that function
+                fv = st.env.get(f["name"])
+                if isinstance(fv, tuple) and len(fv) == 2 and fv[0] == "def" and isinstance(fv[1], str) and self.F.hir.get(fv[1]) is not None:
+                    callee = fv[1]
 
         def rec(i, s, acc):
             if i == len(e.get("args", [])):
@@ -1055,7 +1059,9 @@ class Evaluator:
         """evaluate the callee's body with the actual arguments; path conditions flow through, the callee's return value is the result"""
         self._depth = getattr(self, "_depth", 0) + 1
         try:
-            h = self.F.hir_fn(callee) if self._depth <= 6 else None
+            # the counter also counts earlier calls on the same path whose generators are still suspended (evaluation continues inside their yield), so the bound must leave room for a
+            # sequence of expanded calls, not only for their nesting
+            h = self.F.hir_fn(callee) if self._depth <= 40 else None
             if h is not None:
                 self.inlined.add(callee)
             if h is None:
